@@ -86,6 +86,7 @@ bool impl_to_mv(const cbor_item_t* it, MV& out, std::string& why, int depth) {
   why = "unknown item type"; return false;
 }
 
+static inline std::string P(const std::string& path, const std::string& suffix) { return path.size() > 160 ? path : path + suffix; }
 bool impl_equals(const cbor_item_t* it, const MV& v, std::string& why, const std::string& path) {
   if (!it) { why = path + ": NULL item"; return false; }
   auto bad = [&](const std::string& m) { why = path + ": " + m; return false; };
@@ -118,7 +119,7 @@ bool impl_equals(const cbor_item_t* it, const MV& v, std::string& why, const std
         return true;
       }
       if (cbor_bytestring_chunk_count(it) != v.kids.size()) return bad(fmt("chunk count %zu, expected %zu", cbor_bytestring_chunk_count(it), v.kids.size()));
-      for (size_t i = 0; i < v.kids.size(); i++) if (!impl_equals(cbor_bytestring_chunks_handle(it)[i], v.kids[i], why, path + fmt(".chunk[%zu]", i))) return false;
+      for (size_t i = 0; i < v.kids.size(); i++) if (!impl_equals(cbor_bytestring_chunks_handle(it)[i], v.kids[i], why, P(path, fmt(".chunk[%zu]", i)))) return false;
       return true;
     }
     case MK_TSTR: {
@@ -130,7 +131,7 @@ bool impl_equals(const cbor_item_t* it, const MV& v, std::string& why, const std
         return true;
       }
       if (cbor_string_chunk_count(it) != v.kids.size()) return bad(fmt("chunk count %zu, expected %zu", cbor_string_chunk_count(it), v.kids.size()));
-      for (size_t i = 0; i < v.kids.size(); i++) if (!impl_equals(cbor_string_chunks_handle(it)[i], v.kids[i], why, path + fmt(".chunk[%zu]", i))) return false;
+      for (size_t i = 0; i < v.kids.size(); i++) if (!impl_equals(cbor_string_chunks_handle(it)[i], v.kids[i], why, P(path, fmt(".chunk[%zu]", i)))) return false;
       return true;
     }
     case MK_ARRAY: {
@@ -138,7 +139,7 @@ bool impl_equals(const cbor_item_t* it, const MV& v, std::string& why, const std
       if (cbor_array_is_definite(it) != v.definite) return bad("definite/indefinite flavour differs");
       if (cbor_array_size(it) != v.kids.size()) return bad(fmt("array size %zu, expected %zu", cbor_array_size(it), v.kids.size()));
       if (cbor_array_size(it) > cbor_array_allocated(it)) return bad("size exceeds allocated");
-      for (size_t i = 0; i < v.kids.size(); i++) if (!impl_equals(cbor_array_handle(it)[i], v.kids[i], why, path + fmt("[%zu]", i))) return false;
+      for (size_t i = 0; i < v.kids.size(); i++) if (!impl_equals(cbor_array_handle(it)[i], v.kids[i], why, P(path, fmt("[%zu]", i)))) return false;
       return true;
     }
     case MK_MAP: {
@@ -147,8 +148,8 @@ bool impl_equals(const cbor_item_t* it, const MV& v, std::string& why, const std
       if (cbor_map_size(it) * 2 != v.kids.size()) return bad(fmt("map size %zu, expected %zu", cbor_map_size(it), v.kids.size() / 2));
       if (cbor_map_size(it) > cbor_map_allocated(it)) return bad("size exceeds allocated");
       for (size_t i = 0; i < v.kids.size() / 2; i++) {
-        if (!impl_equals(cbor_map_handle(it)[i].key, v.kids[2 * i], why, path + fmt("{%zu}.key", i))) return false;
-        if (!impl_equals(cbor_map_handle(it)[i].value, v.kids[2 * i + 1], why, path + fmt("{%zu}.value", i))) return false;
+        if (!impl_equals(cbor_map_handle(it)[i].key, v.kids[2 * i], why, P(path, fmt("{%zu}.key", i)))) return false;
+        if (!impl_equals(cbor_map_handle(it)[i].value, v.kids[2 * i + 1], why, P(path, fmt("{%zu}.value", i)))) return false;
       }
       return true;
     }
@@ -157,7 +158,7 @@ bool impl_equals(const cbor_item_t* it, const MV& v, std::string& why, const std
       if (cbor_tag_value(it) != v.val) return bad(fmt("tag %llu, expected %llu", (unsigned long long)cbor_tag_value(it), (unsigned long long)v.val));
       const cbor_item_t* c = it->metadata.tag_metadata.tagged_item;
       if (v.kids.empty()) { if (c) return bad("tag has an item, expected none"); return true; }
-      return impl_equals(c, v.kids[0], why, path + ".tagged");
+      return impl_equals(c, v.kids[0], why, P(path, ".tagged"));
     }
   }
   return bad("unknown model kind");
